@@ -1,6 +1,7 @@
 package main
 
 import (
+	"sync"
 	"fmt"
 	"go/types"
 	"math/big"
@@ -31,6 +32,7 @@ func init() {
 		vhPath + ".Assume":  vhAssume,
 		vhPath + ".Assert":  vhAssert,
 		vhPath + ".Reach":   vhReach,
+		vhPath + ".ReachIf": vhReachIf,
 		vhPath + ".Choice":  vhChoice,
 		vhPath + ".Param":   vhParam,
 		vhPath + ".Eq":      vhEq,
@@ -834,6 +836,30 @@ func vhReach(x *Exec, fv FuncV, a []Value) Value {
 		x.pcUnchecked = false
 	}
 	x.res.Reached[x.cstr(a[0])]++
+	return nil
+}
+
+// ReachIf(cond, tag): the tag counts as reached when the path condition together
+// with cond is satisfiable (sat only; unknown does not count). Does not fork.
+var reachIfSeen sync.Map
+
+func vhReachIf(x *Exec, fv FuncV, a []Value) Value {
+	c := a[0].(*Term)
+	if v, ok := x.known(c); ok {
+		if v {
+			return vhReach(x, fv, a[1:])
+		}
+		return nil
+	}
+	key := x.res.Name + "\x00" + x.cstr(a[1])
+	if _, ok := reachIfSeen.Load(key); ok {
+		// already witnessed (on this or another path); one witness suffices
+		return nil
+	}
+	if x.check(c) == Sat {
+		x.res.Reached[x.cstr(a[1])]++
+		reachIfSeen.Store(key, true)
+	}
 	return nil
 }
 
